@@ -664,6 +664,9 @@ func (v *FV) epochGet(e *Epoch, name string) Term {
 			z := v.idxLit(0)
 			v.emit(fmt.Sprintf("(assert (forall ((r Int)) (! (and (%s %s (sl_off (select %s r))) (%s %s (sl_len (select %s r))) (%s (sl_len (select %s r)) (sl_cap (select %s r)))) :pattern ((select %s r)))))", le, z, t, le, z, t, le, t, t, t))
 		}
+		if v.arrSort(name) == "(Array Int Slice)" {
+			v.sliceFieldsAllocated(e, t)
+		}
 		if e.initial && v.arrSort(name) == "(Array Int Slice)" {
 			v.emit(fmt.Sprintf("(assert (forall ((r Int)) (! (=> (<= r N0!) (<= (sl_arr (select %s r)) N0!)) :pattern ((select %s r)))))", t, t))
 		}
@@ -700,12 +703,28 @@ func (v *FV) epochGet(e *Epoch, name string) Term {
 		if e.mod == nil || e.mod[name] {
 			t = fmt.Sprintf("%s@%d", name, e.id)
 			v.emit(fmt.Sprintf("(declare-const %s %s)", t, v.arrSort(name)))
+			if v.arrSort(name) == "(Array Int Slice)" {
+				le := v.cmpOp("<=", true)
+				z := v.idxLit(0)
+				v.emit(fmt.Sprintf("(assert (forall ((r Int)) (! (and (%s %s (sl_off (select %s r))) (%s %s (sl_len (select %s r))) (%s (sl_len (select %s r)) (sl_cap (select %s r)))) :pattern ((select %s r)))))", le, z, t, le, z, t, le, t, t, t))
+				v.sliceFieldsAllocated(e, t)
+			}
 		} else {
 			t = v.heapGet(e.parent, name)
 		}
 	}
 	e.memo[name] = t
 	return t
+}
+
+// sliceFieldsAllocated: the backing array of a slice stored in an object that exists (below the
+// allocation counter of this epoch) exists as well.
+func (v *FV) sliceFieldsAllocated(e *Epoch, t Term) {
+	if _, ok := v.arrays["TOP"]; !ok {
+		return
+	}
+	top := fmt.Sprintf("(select %s 0)", v.epochGet(e, "TOP"))
+	v.emit(fmt.Sprintf("(assert (forall ((r Int)) (! (=> (< r %s) (< (sl_arr (select %s r)) %s)) :pattern ((select %s r)))))", top, t, top, t))
 }
 
 func (v *FV) heapSet(s *Snapshot, name string, t Term) {
